@@ -134,3 +134,9 @@ package cookie
 //@     && !inmap(set, c.Name)
 //@ at call http.SetCookie#1 assert[issues-that-deletion] arg(http.SetCookie#1, 1) == ret(makeCookie) && arg(http.SetCookie#1, 0) == rw
 //@ ensures[error-sets-nothing] ret1(makeSessionCookie) != nil ==> ret0 != nil && !called(http.SetCookie)
+
+//@ func NewCookieSessionStore
+//@ prop C02 C09 C18
+//@ ensures[store-uses-the-given-cookie-options-and-a-cipher-from-its-secret] ret1 == nil ==> ret1(NewCFBCipher) == nil
+//@     && bytes(arg(NewCFBCipher, 0)) == bytes(ret(SecretBytes)) && arg(SecretBytes, 0) == cookieOpts.Secret
+//@ ensures[cipher-error-is-an-error] ret1(NewCFBCipher) != nil ==> ret1 != nil && ret0 == nil
